@@ -45,6 +45,9 @@ impl<'a> TryFrom<&'a [u8]> for SnmpGetResponse<'a> {
         while !v_tail.is_empty() {
             // Parse enclosing sequence
             let (rest, vs) = SnmpSequence::from_ber(v_tail)?;
+            if vs.0.is_empty() {
+                return Err(SnmpError::Incomplete);
+            }
             // Parse oid. May be either absolute or relative
             let (tail, oid) = match vs.0[0] as Tag {
                 TAG_OBJECT_ID => SnmpOid::from_ber(vs.0)?,
